@@ -13,8 +13,9 @@ import os
 from . import core
 
 ALPHABET = ["'", '"', "\\", "$", "`", "!", " ", "\t", "\n", "\r", "\x01", "\x7f", "é", "🚀", "-", "~", "#", "=", "*", "?", "[", "{",
-            ";", "&", "|", "<", ">", "(", ")", "a"]
+            ";", "&", "|", "<", ">", "(", ")", "a", "]", "@", "}", "0"]
 BATCH = 30
+ATTR_FLAGS = ["-l", "-u", "-x", "-lx", "-r"]
 WORD_PRODUCERS = ["q", "Q", "xtrace", "arrQ", "arrQe", "arrQa", "posQ"]          # re-read in word position: eval "set -- $text"
 ASSIGN_PRODUCERS = ["A", "declp", "declpx", "setlist", "exportp"]      # eval "$text" recreates variable x
 ARRAY_PRODUCERS = ["declpa", "declpA", "arrK"]
@@ -39,6 +40,9 @@ def producer_script(n):
         s.append('b=("" "$x" ""); printf %%s "${b[*]@Q}" > T/%d.arrQe; printf "%%s " "${b[@]@Q}" > T/%d.arrQa' % (i, i))
         s.append('( set -- "$x" "" "p q"; printf %%s "${*@Q}" > T/%d.posQ )' % i)
         s.append('if [ -n "$x" ]; then declare -A m=(); m["$x"]="$x"; declare -p m > T/%d.declpA; printf %%s "${m[@]@K}" > T/%d.arrK; unset m; fi' % (i, i))
+        # attributes: what `declare -p` / ${v@A} print must recreate the attribute set too (observed through ${v@a})
+        for k, fl in enumerate(ATTR_FLAGS):
+            s.append('( declare %s at=$x; declare -p at > T/%d.attrp%d; printf %%s "${at@A}" > T/%d.attrA%d; printf %%s "$at" > T/%d.attrv%d ) 2>/dev/null' % (fl, i, k, i, k, i, k))
         s.append('alias nm="$x"; alias nm > T/%d.alias; unalias nm' % i)
         s.append('trap -- "$x" USR1; trap -p USR1 > T/%d.trap; trap - USR1' % i)
     return "\n".join(s) + "\n"
@@ -57,6 +61,12 @@ def reader_script(n):
         for p in ("A", "declp", "declpx"):
             s.append('unset x; rd T/%d.%s; eval "$t"; argdump -t %s.%d -- "${x-UNSET}"' % (i, p, p, i))
         s.append('unset x; rd T/%d.exportp; ( eval "$t" 2>/dev/null; argdump -t exportp.%d -- "${x-UNSET}" )' % (i, i))
+        for k in range(len(ATTR_FLAGS)):
+            for pr in ("attrp", "attrA"):
+                # the reader's own attribute letters in one canonical order (bash prints `xl`, brush `lx`), and whether the value came back
+                s.append('( rd T/%d.attrv%d; o=$t; rd T/%d.%s%d; eval "$t" 2>/dev/null; n=; for c in a A i l n r t u x; do case ${at@a} in *$c*) n+=$c;; esac; done; '
+                         'if [ "${at-UNSET}" = "$o" ]; then argdump -t %s%d.%d -- "$n" valsame; else argdump -t %s%d.%d -- "$n" valdiff "${at-UNSET}"; fi )'
+                         % (i, k, i, pr, k, pr, k, i, pr, k, i))
         s.append('unset a; rd T/%d.declpa; eval "$t"; argdump -t declpa.%d -- "${a[@]}"' % (i, i))
         s.append('if [ -f T/%d.declpA ]; then unset m; rd T/%d.declpA; eval "$t"; argdump -t declpA.%d -- "${!m[@]}" "${m[@]}"; '
                  'unset m; declare -A m; rd T/%d.arrK; eval "m=($t)"; argdump -t arrK.%d -- "${!m[@]}" "${m[@]}"; fi' % (i, i, i, i, i))
@@ -114,10 +124,14 @@ def expected(prod, v):
         return [v, v]
     if prod in ("alias", "trap"):
         return [b"same"]
+    if prod.startswith(("attrp", "attrA")):
+        fl = ATTR_FLAGS[int(prod[5:])].lstrip("-")
+        return ["".join(c for c in "aAilnrtux" if c in fl).encode(), b"valsame"]
     raise ValueError(prod)
 
 
-ALL_PRODUCERS = ["q", "Q", "arrQ", "arrQe", "arrQa", "posQ", "xtrace", "A", "declp", "declpx", "setlist", "exportp", "declpa", "declpA", "arrK", "alias", "trap"]
+ALL_PRODUCERS = (["q", "Q", "arrQ", "arrQe", "arrQa", "posQ", "xtrace", "A", "declp", "declpx", "setlist", "exportp", "declpa", "declpA", "arrK", "alias", "trap"]
+                 + ["attrp%d" % k for k in range(len(ATTR_FLAGS))] + ["attrA%d" % k for k in range(len(ATTR_FLAGS))])
 
 
 def run_batch(values):
